@@ -16,10 +16,11 @@ def main():
     for crate, bins in HARNESS.items():
         if os.path.exists(os.path.join(vlib.VERIF, crate, "Cargo.toml")):
             vlib.harness_build(crate, bins, release=False)
-            vlib.harness_build(crate, bins, release=True)
+            if crate == "harness":
+                vlib.harness_build(crate, bins, release=True)
             print("harness %s: ok" % crate)
     print("setup done in %.0fs" % (time.time() - t0))
     return 0 if ok else 2
 
 
-HARNESS = {"harness": ["prim", "codec", "transport", "seq"]}
+HARNESS = {"harness": ["prim", "codec", "transport", "seq"], "harness_client": ["zvt_verif_harness_client"]}
